@@ -213,7 +213,11 @@ theorem seekNext_nil {b : Bytes} {vr : VR} {h : LRSH} {s : TSeg} (A : AtSeg b h 
 theorem seekNext_cons {b : Bytes} {vr : VR} {h : LRSH} {s s' : TSeg} {ss : List TSeg} {tail : Bytes} {r : Nat} {nf : Bool}
     (A : AtSeg b h s (s'.bytes ++ tail)) (I : Inv vr h r) (W : segsWF r nf (s' :: ss)) :
     ∃ vr' h' r', seekNext b vr h = .ok (vr', h') ∧ AtSeg b h' s' tail ∧ Inv vr' h' r' ∧ 16 ≤ s'.d.segLen
-      ∧ (nf = true → s'.first = true) ∧ segsWF r' s'.last ss := by
+      ∧ (nf = true → s'.first = true) ∧ segsWF r' s'.last ss
+      ∧ (vr', h'.pos) = (match s'.d.vr with
+          | some L => (⟨h.nextPos, L⟩, h.nextPos + 4)
+          | none => (vr, h.nextPos))
+      ∧ (h.nextPos = vr.nextPos ↔ s'.d.vr.isSome = true) := by
   have hd := drop_next A
   obtain ⟨hn, h16, hf, hm⟩ := W
   unfold TSeg.bytes at hd
@@ -228,7 +232,8 @@ theorem seekNext_cons {b : Bytes} {vr : VR} {h : LRSH} {s s' : TSeg} {ss : List 
       rw [drop_add', hd, List.append_assoc]
       exact List.drop_left' rfl
     obtain ⟨h', hh', hpos, A'⟩ := atSeg_of_drop b _ s' tail hd4 hn
-    refine ⟨⟨h.nextPos, L⟩, h', L - (4 + s'.d.segLen), by simp only [hh'], A', ?_, h16, hf, hW⟩
+    refine ⟨⟨h.nextPos, L⟩, h', L - (4 + s'.d.segLen), by simp only [hh'], A', ?_, h16, hf, hW, by simp [hpos],
+      by simp [hnp]⟩
     have := I.p1; have := I.p2; have hl := A'.len
     have hpos' : h'.pos = h.pos + h.len + 4 := hpos
     constructor <;> simp only [] <;> omega
@@ -238,7 +243,7 @@ theorem seekNext_cons {b : Bytes} {vr : VR} {h : LRSH} {s s' : TSeg} {ss : List 
     have hnp : h.nextPos ≠ vr.nextPos := by unfold LRSH.nextPos VR.nextPos; have := I.p5; omega
     rw [if_neg hnp]
     obtain ⟨h', hh', hpos, A'⟩ := atSeg_of_drop b _ s' tail (by simpa [vrHeader] using hd) hn
-    refine ⟨vr, h', r - s'.d.segLen, by simp only [hh'], A', ?_, h16, hf, hW⟩
+    refine ⟨vr, h', r - s'.d.segLen, by simp only [hh'], A', ?_, h16, hf, hW, by simp [hpos], by simp [hnp]⟩
     have := I.p1; have := I.p2; have := I.p3; have := I.p4; have := I.p5; have hl := A'.len
     have hpos' : h'.pos = h.pos + h.len := hpos
     constructor <;> omega
@@ -262,7 +267,7 @@ theorem iterGo_flat (b : Bytes) :
     intro s fuel vr h cur r hfuel A I h16 W
     obtain ⟨f, rfl⟩ : ∃ f, fuel = f + 1 := ⟨fuel - 1, by simp at hfuel; omega⟩
     rw [List.flatMap_cons] at A
-    obtain ⟨vr', h', r', hs, A', I', h16', hf', W'⟩ := seekNext_cons A I W
+    obtain ⟨vr', h', r', hs, A', I', h16', hf', W', _, _⟩ := seekNext_cons A I W
     have hpc := lrPosCheck_ok vr h r I.p1 I.p2 I.p3 I.p4 I.p5 (by rw [A.len]; exact h16)
     have hfu : ss.length < f := by simp at hfuel; omega
     unfold iterGo
